@@ -9,6 +9,11 @@
     WatchAll           :446  → startKind / fetchKind / rewrite (filter closure :651)
   The ghost field `log` (the unbounded list of everything ever published) is not in
   the code; `Cosi.Props.C02.ring_refines_log` relates the ring to it.
+
+  This file is the machinery AS INTENDED (C03/C10/C11/C13/C15 build on it and reason about it by unfolding).
+  Cosi.Model.WatchRules holds the same machinery with every decision point of collection.go a parameter
+  (`Rules`, `…With`), instantiated from the facts REGENERATED from the source text (`genRules`); engine `watch`'s
+  driver runs that one, and Cosi.C02 / Cosi.C12 prove `…With R = intended` under the intended rules.
 -/
 import Cosi.Model.Store
 
@@ -99,6 +104,8 @@ structure Watcher where
   chan : List Delivery := []        -- channel buffer
   chanCap : Nat := 0
   dead : Bool := false              -- goroutine returned (after an overrun)
+  capSnap : Nat := 0                -- the ring capacity when the watch was established (read only by
+                                    -- Cosi.Model.WatchRules, under a rule that keeps using a local copy of it)
 deriving Repr, Inhabited
 
 def tombstone (ns typ id : String) : Res :=
